@@ -125,7 +125,11 @@ SnapshotApplied ==
   /\ applied' = [u \in 1..N |-> IF Units[u].e <= Trace[l].off /\ applied[u] = 0 THEN 1 ELSE applied[u]]
   /\ UNCHANGED <<meta, conns, lastResume, crashes>>
 
-Next == Reset \/ Req \/ Crash \/ Resume \/ Quiesce \/ Return \/ SnapshotApplied
+\* a slot of the cluster target was handed over (scenarios with hand-overs list what took effect, in execution order, one
+\* multi ... exec per applied block - a request a node refused has not happened); the rules are the same
+Mig == IsEvent("Mig") /\ UNCHANGED <<meta, conns, applied, lastResume, crashes>>
+
+Next == Reset \/ Req \/ Crash \/ Resume \/ Quiesce \/ Return \/ SnapshotApplied \/ Mig
 Spec == Init /\ [][Next]_vars
 TraceAccepted ==
   LET d == TLCGet("stats").diameter IN
